@@ -21,13 +21,13 @@ def run(ctx):
     r2 = random.Random(1)
     while can is None:
         c = fam2.c07_prog("p_canary", r2, force=False)
-        if "l.put(1); l.put(x0.id);" in c.text:
-            c.text = c.text.replace("l.put(1); l.put(x0.id);", "l.put(2); l.put(x0.id);", 1)
+        if "x0.gen.wrapping_add(1)" in c.text:
+            c.text = c.text.replace("x0.gen.wrapping_add(1)", "x0.gen.wrapping_add(2)", 1)
             can = c
     st = E.run_family(ctx, "C07", progs, can, extra_support=fam2.C07_SUPPORT)
     ctx.assumptions += [
         "Kani 0.68 / CBMC 6.11, proof_for_contract with kani::modifies(log); loop-free harnesses over symbolic ids and a symbolic ordered pair of variants => complete per program",
-        "calls are observed through a log with interior mutability carried by the field values (type Tr<'a>); shapes are a seeded family (structs 0-4 fields, enums 1-4 variants, Tr and u8 fields)",
+        "calls are observed through a log with interior mutability carried by the field values (type Tr<'a>) and, for items without generics, in the value itself (type Tg: clone => gen+1, clone_from => gen+16); field types are Copy with a hand-written Clone; trait lists Clone / Copy+Clone / Clone+Copy; shapes are a seeded family (structs 0-4 fields, enums 1-4 variants)",
         "`b` untouched is guaranteed by the &Self signature of clone_from (no interior mutability in the payload)",
     ]
     cov = dict(st)
